@@ -13,6 +13,10 @@
 //!         mode u<micros>: Duration of that many microseconds (0 = already expired); the token of such an operation
 //!         ends in #<n> = number of whole arrivals it took off the socket (by FIONREAD)
 //!   ra                                    refill_all
+//!   tro:<mode>                            try_refill_once (result Y<kind> like refill_once)
+//!   sf:<j>                                set_filter(table entry j) ; result S
+//!   filter index 16 = no set_filter call (the default filter of RpcConn::new) ; mode F = Timeout::Infinite
+//!   a spec may carry three more fields: .<flags>.<l|B>.<destination 0|1>
 //! stdout: one token per op, comma separated; after the token, `|` and the errors the peer read
 //! from the socket after that op (`;` separated):
 //!   arrival: + / - (verdict of the installed filter on that message)
@@ -109,13 +113,17 @@ fn build(spec: &str) -> (MarshalledMessage, NonZeroU32) {
     let member = if p[3] == "-" { None } else { Some(p[3].to_string()) };
     let sender = if p[4] == "1" { Some(":1.5".to_string()) } else { None };
     let iface = p[5] == "1";
+    // optional: header flags, byte order (l|B), destination (0|1)
+    let flags: u8 = p.get(6).map(|x| x.parse().unwrap()).unwrap_or(0);
+    let bo = if p.get(7).copied() == Some("B") { ByteOrder::BigEndian } else { ByteOrder::LittleEndian };
+    let dest = p.get(8).copied() == Some("1");
     let mut msg = match p[0] {
         "c" => {
-            let b = MessageBuilder::new().call(member.clone().unwrap()).on("/o");
+            let b = MessageBuilder::with_byteorder(bo).call(member.clone().unwrap()).on("/o");
             let b = if iface { b.with_interface("i.f") } else { b };
             b.build()
         }
-        "s" => MessageBuilder::new().signal("s.i", member.clone().unwrap(), "/s").build(),
+        "s" => MessageBuilder::with_byteorder(bo).signal("s.i", member.clone().unwrap(), "/s").build(),
         "r" => MarshalledMessage {
             typ: MessageType::Reply,
             dynheader: DynamicHeader {
@@ -123,7 +131,7 @@ fn build(spec: &str) -> (MarshalledMessage, NonZeroU32) {
                 ..Default::default()
             },
             flags: 0,
-            body: MarshalledMessageBody::new(),
+            body: MarshalledMessageBody::with_byteorder(bo),
         },
         _ => MarshalledMessage {
             typ: MessageType::Error,
@@ -133,10 +141,14 @@ fn build(spec: &str) -> (MarshalledMessage, NonZeroU32) {
                 ..Default::default()
             },
             flags: 0,
-            body: MarshalledMessageBody::new(),
+            body: MarshalledMessageBody::with_byteorder(bo),
         },
     };
     msg.dynheader.sender = sender;
+    msg.flags = flags;
+    if dest {
+        msg.dynheader.destination = Some(":1.77".to_string());
+    }
     msg.body.push_param(serial.get()).unwrap();
     // a string argument of 0..59 bytes (from the serial) so that body-internal split positions exist
     let filler: String = (0..(serial.get() as usize * 7) % 60).map(|i| (b'a' + (i % 26) as u8) as char).collect();
@@ -215,6 +227,8 @@ fn tmo(mode: &str) -> Timeout {
     match mode {
         "I" => Timeout::Duration(std::time::Duration::from_millis(long_ms())),
         "N" => Timeout::Nonblock,
+        // F: really Timeout::Infinite (the model says the message is there; the per-case deadline is the hang detector)
+        "F" => Timeout::Infinite,
         // u<micros>: a deadline so close that it may pass while the call is at work (0: has passed already)
         m if m.starts_with('u') => Timeout::Duration(std::time::Duration::from_micros(m[1..].parse().unwrap())),
         _ => Timeout::Duration(std::time::Duration::from_millis(1)),
@@ -237,13 +251,22 @@ fn show_msg(r: Result<MarshalledMessage, rustbus::connection::Error>) -> String 
 }
 
 fn run(fidx: u32, ops: &str) -> String {
-    let (conn, mut peer) = rbverif::conn::connect_pair(true);
+    let (conn, mut peer) = match std::panic::catch_unwind(|| rbverif::conn::connect_pair(true)) {
+        Ok(x) => x,
+        Err(_) => return "SETUPFAIL|".to_string(),
+    };
     let mut rpc = RpcConn::new(conn);
-    rpc.set_filter(Box::new(move |m| filter_family(fidx, m)));
+    // index 16: no set_filter call at all - the filter RpcConn::new installs accepts everything (= table entry 0)
+    let mut fidx = fidx;
+    if fidx == 16 {
+        fidx = 0;
+    } else {
+        rpc.set_filter(Box::new(move |m| filter_family(fidx, m)));
+    }
     peer.set_nonblocking(true).unwrap();
     let mut pending = Vec::new();
     let mut out = Vec::new();
-    let mut rest: Option<(Vec<u8>, &'static str, usize)> = None;
+    let mut rest: Option<(Vec<u8>, MarshalledMessage, usize)> = None;
     // lengths of the arrivals written completely and not yet read by the client (oldest first)
     let mut unread: std::collections::VecDeque<usize> = std::collections::VecDeque::new();
     for op in ops.split(',') {
@@ -271,14 +294,16 @@ fn run(fidx: u32, ops: &str) -> String {
                     // queued at the receiver when write returns, so the next client operation sees exactly them.
                     let k = split_pos(p[2], body_start, buf.len());
                     peer.write_all(&buf[..k]).unwrap();
-                    rest = Some((buf[k..].to_vec(), verdict, buf.len()));
+                    rest = Some((buf[k..].to_vec(), seen, buf.len()));
                     "p".to_string()
                 }
             }
             "af" => match rest.take() {
-                Some((bytes, verdict, total)) => {
+                Some((bytes, seen, total)) => {
                     peer.write_all(&bytes).unwrap();
                     unread.push_back(total);
+                    // the verdict of the filter that is installed when the arrival is complete
+                    let verdict = if filter_family(fidx, &seen) { "+" } else { "-" };
                     verdict.to_string()
                 }
                 None => "?".to_string(),
@@ -302,6 +327,19 @@ fn run(fidx: u32, ops: &str) -> String {
                 Ok(t) => format!("Y{}", kind_char(t)),
                 Err(e) => show_err(&e),
             },
+            // the public single step of refill_once
+            "tro" => match rpc.try_refill_once(tmo(p[1])) {
+                Ok(Some(t)) => format!("Y{}", kind_char(t)),
+                Ok(None) => "Ynone".to_string(),
+                Err(e) => show_err(&e),
+            },
+            // a new filter in the middle of a run (the check drains the socket first: it applies to later arrivals)
+            "sf" => {
+                let j: u32 = p[1].parse().unwrap();
+                fidx = j;
+                rpc.set_filter(Box::new(move |m| filter_family(j, m)));
+                "S".to_string()
+            }
             "ra" => match rpc.refill_all() {
                 Ok(v) => format!("R{}", v.iter().map(err_canon).collect::<Vec<_>>().join(";")),
                 Err(e) => show_err(&e),
@@ -344,7 +382,7 @@ fn run(fidx: u32, ops: &str) -> String {
 }
 
 fn main() {
-    let case_ms: u64 = std::env::var("C14_CASE_MS").ok().and_then(|v| v.parse().ok()).unwrap_or(10000) + long_ms();
+    let case_ms: u64 = std::env::var("C14_CASE_MS").ok().and_then(|v| v.parse().ok()).unwrap_or(3000) + long_ms();
     let mut hangs = 0;
     rbverif::line_loop(move |line| {
         let parts: Vec<&str> = line.split(' ').collect();
